@@ -10,9 +10,40 @@ import EtkVerif.Cfg.Lemmas
 import EtkVerif.Annot.Total
 import EtkVerif.Blocks.Lemmas
 import EtkVerif.Disasm.Lemmas
+import EtkVerif.Cfg.PipelineAux
 namespace EtkVerif
 namespace Pipeline
 open Ops Annot Cfg
+
+/-- What the first two stages establish about the blocks of a byte string. -/
+theorem blocks_facts (code : List Nat) :
+    let items := (Disasm.decodeAll Gen.cancun code).1
+    (blocks code).flatMap (·.ops) = items.map (·.2) ∧
+    (∀ b ∈ blocks code, b.Shaped Gen.cancun) ∧
+    Blocks.BlocksChained 0 (blocks code) ∧
+    Blocks.Chained 0 items ∧
+    (∀ it ∈ items, it.2.imm.length = Disasm.immLen Gen.cancun it.2.op ∧ it.2.op ∈ code) ∧
+    Blocks.lenSum items ≤ code.length := by
+  intro items
+  obtain ⟨hbl, hfed⟩ := blocks_eq_run code
+  obtain ⟨hch, hits, hsum⟩ := sweep_facts Gen.cancun code.length 0 code
+  refine ⟨?_, ?_, ?_, hch, hits, hsum⟩
+  · rw [hbl, Blocks.run_flat, hfed]
+  · rw [hbl]; exact Blocks.run_shaped _ jtNotEnd_cancun _
+  · rw [hbl]
+    refine Blocks.run_offsets _ _ 0 ?_
+    rw [hfed]
+    exact hch
+
+/-- Every instruction of every block: opcode from the code, immediate of the table's length. -/
+theorem blocks_instr (code : List Nat) (b : Blocks.Block) (hb : b ∈ blocks code)
+    (i : Disasm.Instr) (hi : i ∈ b.ops) :
+    i.imm.length = Disasm.immLen Gen.cancun i.op ∧ i.op ∈ code := by
+  obtain ⟨hflat, -, -, -, hits, -⟩ := blocks_facts code
+  have : i ∈ (blocks code).flatMap (·.ops) := List.mem_flatMap.mpr ⟨b, hb, hi⟩
+  rw [hflat] at this
+  obtain ⟨it, hit, rfl⟩ := List.mem_map.mp this
+  exact hits it hit
 
 /-- The pipeline's first stages establish `Setup`: for every byte string (bytes
 < 256) of at most 65536 bytes whose blocks stay below the annotator's `u16`
@@ -21,13 +52,40 @@ blocks satisfy the hypotheses of the CFG theorems (C05, C20, C15). -/
 theorem pipeline_setup (code : List Nat) (hb : ∀ b ∈ code, b < 256) (hlen : code.length ≤ 65536)
     (hbudget : ∀ b ∈ blocks code, popBudget Gen.cancun b.ops ≤ 65535) :
     ∃ anns, annotateAll Gen.cancun (blocks code) = .ok anns ∧ Setup Gen.cancun (blocks code) anns := by
-  sorry
+  obtain ⟨hflat, hshaped, hbc, hch, hits, hsum⟩ := blocks_facts code
+  have hann : ∀ b ∈ blocks code, ∃ a, annotate Gen.cancun b = .ok a := by
+    intro b hbm
+    obtain ⟨hne, -, hdl⟩ := hshaped b hbm
+    exact annotate_total Gen.cancun tableLedgerOK_cancun b hne
+      (fun i hi => hb _ (blocks_instr code b hbm i hi).2) hdl (hbudget b hbm)
+  obtain ⟨anns, hok, hlen', hget⟩ := annotateAll_ok Gen.cancun (blocks code) hann
+  refine ⟨anns, hok, ⟨hlen', hget, ?_, ?_, ?_⟩⟩
+  · intro b hbm i hi
+    obtain ⟨h1, h2⟩ := blocks_instr code b hbm i hi
+    rw [sizeOK_cancun i.op (hb _ h2), ← h1]
+    rfl
+  · intro b hbm
+    have h1 := (blocksChained_bounds _ 0 hbc b hbm).2
+    have h2 := total_eq_lenSum _ _ hflat
+    omega
+  · have hpw := blocksChained_pairwise _ 0 hbc (fun b hbm => byteLen_pos b (hshaped b hbm).1)
+    rw [List.pairwise_iff_getElem] at hpw
+    intro i j hi hj heq
+    rw [List.getElem?_eq_getElem hi, List.getElem?_eq_getElem hj] at heq
+    simp only [Option.map_some, Option.some.injEq] at heq
+    rcases Nat.lt_trichotomy i j with h | h | h
+    · have := hpw i j hi hj h; omega
+    · exact h
+    · have := hpw j i hj hi h; omega
 
 /-- … hence building and refining the graph never panic, for any solver. -/
 theorem pipeline_total (code : List Nat) (hb : ∀ b ∈ code, b < 256) (hlen : code.length ≤ 65536)
     (hbudget : ∀ b ∈ blocks code, popBudget Gen.cancun b.ops ≤ 65535) (sat : List Smt.BTerm → Bool) :
     ∃ anns g g', annotateAll Gen.cancun (blocks code) = .ok anns ∧ cfgNew anns = .ok g ∧ refine sat g = .ok g' := by
-  sorry
+  obtain ⟨anns, hok, hS⟩ := pipeline_setup code hb hlen hbudget
+  obtain ⟨g, hg⟩ := cfgNew_total Gen.cancun (blocks code) anns hS
+  obtain ⟨g', hg'⟩ := refine_total Gen.cancun (blocks code) anns hS g hg sat
+  exact ⟨anns, g, g', hok, hg, hg'⟩
 
 /-- The blocks concatenate to the linear sweep of the code, and a program counter
 is the start of a jump-target block exactly when the sweep has a `jumpdest`
@@ -37,7 +95,19 @@ theorem pipeline_jumpdests (code : List Nat) (hb : ∀ b ∈ code, b < 256) :
     (blocks code).flatMap (·.ops) = ((Disasm.decodeAll Gen.cancun code).1).map (·.2) ∧
     ∀ d : Nat, (∃ b ∈ blocks code, b.offset = d ∧ ∃ i, b.ops.head? = some i ∧ i.op = 0x5b) ↔
                (∃ imm, (d, (⟨0x5b, imm⟩ : Disasm.Instr)) ∈ (Disasm.decodeAll Gen.cancun code).1) := by
-  sorry
+  have _ := hb  -- not needed: bytes ≥ 256 get the default row, which is no jump target
+  obtain ⟨hflat, hshaped, hbc, hch, hits, hsum⟩ := blocks_facts code
+  refine ⟨hflat, fun d => ⟨?_, ?_⟩⟩
+  · rintro ⟨b, hbm, rfl, i, hi, hop⟩
+    refine ⟨i.imm, ?_⟩
+    have := head_mem _ 0 _ hbc hch hflat b hbm i hi
+    obtain ⟨op, imm⟩ := i
+    simp only at hop
+    subst hop
+    exact this
+  · rintro ⟨imm, hmem⟩
+    obtain ⟨b, hbm, hbo, hbh⟩ := jt_head Gen.cancun _ 0 _ hbc hch hflat hshaped d _ hmem (jt_cancun_5b imm)
+    exact ⟨b, hbm, hbo, _, hbh, rfl⟩
 
 end Pipeline
 end EtkVerif
